@@ -153,3 +153,101 @@ def describe(recs):
     return {"atoms": len(a), "chains": "".join(chains),
             "hetero": sorted({r.resn.strip() for r in a if r.tag == "HETATM"}),
             "first": a[0].text()[:30] if a else None}
+
+
+# ------------------------------------------------------------------ builders
+CHAIN_POOL = "ABCDEFGXYZ12ab"
+
+
+def add_oxt(res_atoms):
+    """Append an OXT to a residue (trigonal position at C opposite to CA and O), or None."""
+    import math
+    at = {a.aname(): a for a in res_atoms}
+    if not all(k in at for k in ("C", "CA", "O")) or "OXT" in at:
+        return None
+    c, ca, o = at["C"], at["CA"], at["O"]
+
+    def unit(v):
+        n = math.sqrt(sum(x * x for x in v)) or 1.0
+        return [x / n for x in v]
+    v1 = unit([ca.x - c.x, ca.y - c.y, ca.z - c.z])
+    v2 = unit([o.x - c.x, o.y - c.y, o.z - c.z])
+    d = unit([-(v1[i] + v2[i]) for i in range(3)])
+    r = c.copy()
+    r.name = " OXT"
+    r.x, r.y, r.z = (int(round(c.x + 1250 * d[0])), int(round(c.y + 1250 * d[1])),
+                     int(round(c.z + 1250 * d[2])))
+    return r
+
+
+def chimera(rng, nchains=None, allow_blank=True, hetero=True, max_atoms=900):
+    """2-6 chains recombined from real pieces: segments/cut-outs of the repository proteins,
+    placed side by side, relabelled; TERs sometimes missing, OXT on some chains, hetero
+    groups carrying their own or another chain's identifier.
+    Returns (records, description)."""
+    nchains = nchains or rng.choice((2, 2, 3, 3, 4, 5, 6))
+    pool = list(CHAIN_POOL)
+    rng.shuffle(pool)
+    if allow_blank and rng.random() < 0.3:
+        pool[rng.randrange(nchains)] = " "
+    out = []
+    desc = {"chains": [], "ter": [], "oxt": [], "hetero": []}
+    offset = [0, 0, 0]
+    axis = rng.randrange(3)
+    prev_max = None
+    natoms = 0
+    for k in range(nchains):
+        src = repo_recs(rng.choice(PROTEINS))
+        if rng.random() < 0.6:
+            piece = segment([r for r in src if r.raw is not None or r.tag == "ATOM  "],
+                            rng, rng.randint(4, 22))
+        else:
+            piece, _ = cutout(src, rng, rng.choice((6, 7, 8, 9)), protein_only=not hetero)
+        atoms_ = [r for r in piece if r.raw is None]
+        if not atoms_:
+            continue
+        if natoms + len(atoms_) > max_atoms and k >= 2:
+            break
+        natoms += len(atoms_)
+        cid = pool[k]
+        # side by side along one axis with a 4-9 A gap
+        lo = min((r.x, r.y, r.z)[axis] for r in atoms_)
+        hi = max((r.x, r.y, r.z)[axis] for r in atoms_)
+        shift = [0, 0, 0]
+        if prev_max is not None:
+            shift[axis] = prev_max + rng.randrange(4000, 9000) - lo
+        piece = pdbio.move(piece, pdbio.IDENTITY, tuple(shift))
+        prev_max = hi + shift[axis]
+        res = residue_list(piece)
+        prot = [x for x in res if x.key[0] == "ATOM  "]
+        het = [x for x in res if x.key[0] == "HETATM"]
+        recs_k = []
+        for x in prot:
+            for a in x.atoms:
+                a2 = a.copy()
+                a2.chain = cid
+                recs_k.append(a2)
+        if prot and rng.random() < 0.4:
+            oxt = add_oxt([a for a in recs_k if (a.resnum, a.icode) == (prot[-1].atoms[0].resnum, prot[-1].atoms[0].icode)])
+            if oxt is not None:
+                oxt.chain = cid
+                # sometimes not the last atom of the residue
+                if rng.random() < 0.3:
+                    recs_k.insert(len(recs_k) - rng.randrange(0, 3), oxt)
+                else:
+                    recs_k.append(oxt)
+                desc["oxt"].append(cid)
+        out.extend(recs_k)
+        ter = rng.random() < 0.7
+        if ter and recs_k:
+            out.append(pdbio.raw("TER"))
+        desc["ter"].append(ter)
+        desc["chains"].append(cid)
+        for x in het:
+            hc = rng.choice((cid, cid, pool[(k + 1) % nchains], pool[nchains]))
+            for a in x.atoms:
+                a2 = a.copy()
+                a2.chain = hc
+                out.append(a2)
+            desc["hetero"].append((x.key[4].strip(), hc))
+    return out, desc
